@@ -84,6 +84,15 @@ def _rfn(ctx, q: str, **kw):
 
 
 
+def _resolve1(scope, e):
+    """a name bound exactly once in the scope -> its value (one step)"""
+    if isinstance(e, ast.Name):
+        ds = [x for x in ast.walk(scope) if isinstance(x, ast.Assign) and len(x.targets) == 1 and isinstance(x.targets[0], ast.Name) and x.targets[0].id == e.id]
+        if len(ds) == 1:
+            return ds[0].value
+    return e
+
+
 def rule_r1(ctx) -> List[R.Inst]:
     M = ctx.M
     rid = "C20.R1"
@@ -192,12 +201,24 @@ def rule_r2(ctx) -> List[R.Inst]:
                             construct=unparse(first)[:100]))
     # (b) ungrouped view taken before marking; the same mask marks and is appended
     idx = {}
+    # the positions of the notes not grouped yet, as a mask (~is_grouped) or as indices (np.flatnonzero(~is_grouped)), possibly named
+    def ungrouped(e) -> bool:
+        e = _resolve1(lp, e)
+        t_ = unparse(e).replace(" ", "")
+        return t_ in ("~is_grouped", "np.flatnonzero(~is_grouped)", "np.where(~is_grouped)[0]", "np.nonzero(~is_grouped)[0]")
+    index_mark = None
     for i, s in enumerate(body):
         t = unparse(s)
         if isinstance(s, ast.Assign) and unparse(s.targets[0]) == "ar_ungrouped":
             idx["view"] = (i, s)
-        if isinstance(s, ast.AugAssign) and unparse(s.target) == "is_grouped[~is_grouped]":
+        if isinstance(s, ast.AugAssign) and isinstance(s.target, ast.Subscript) and unparse(s.target.value) == "is_grouped" and ungrouped(s.target.slice):
             idx["mark"] = (i, s)
+        # index form of the same marking: is_grouped[<ungrouped positions>[mask]] = True
+        if isinstance(s, ast.Assign) and isinstance(s.targets[0], ast.Subscript) and unparse(s.targets[0].value) == "is_grouped" and \
+                isinstance(s.targets[0].slice, ast.Subscript) and ungrouped(s.targets[0].slice.value) and \
+                isinstance(s.value, ast.Constant) and s.value.value is True:
+            idx["mark"] = (i, s)
+            index_mark = s.targets[0].slice.slice
         if isinstance(s, ast.Expr) and isinstance(s.value, ast.Call) and call_name(s.value) == "append":
             idx["append"] = (i, s)
     if set(idx) != {"view", "mark", "append"}:
@@ -205,9 +226,13 @@ def rule_r2(ctx) -> List[R.Inst]:
     else:
         v, m, a = idx["view"], idx["mark"], idx["append"]
         probs = []
-        if unparse(v[1].value) != "ar[~is_grouped]":
+        vv = v[1].value
+        if not (isinstance(vv, ast.Subscript) and unparse(vv.value) == "ar" and ungrouped(vv.slice)):
             probs.append(f"the candidate view is '{unparse(v[1].value)}', not the currently ungrouped notes")
-        if not (isinstance(m[1].op, ast.BitOr) and unparse(m[1].value) == "mask"):
+        if index_mark is not None:
+            if unparse(index_mark) != "mask":
+                probs.append(f"marking selects '{unparse(index_mark)}' of the ungrouped positions, not the selection mask")
+        elif not (isinstance(m[1].op, ast.BitOr) and unparse(m[1].value) == "mask"):
             probs.append(f"marking uses '{unparse(m[1])}' instead of OR-ing the selection mask into the ungrouped positions")
         ap = a[1].value.args[0] if a[1].value.args else None
         if ap is None or unparse(ap) != "ar_ungrouped[mask]":
@@ -263,6 +288,27 @@ def rule_r2(ctx) -> List[R.Inst]:
     insts.append(R.ok(rid, "h-window", file, hm.node.lineno, idiom="|column - reference| <= h_window") if ok_h else
                  R.viol(rid, "h-window", file, hm.node.lineno, "the horizontal window is |column - reference column| <= h_window",
                         construct=unparse(cmpn[0]) if cmpn else ""))
+    # first occurrence per column, dict form: for ix, col in enumerate(cols[start:end], start): D.setdefault(col, ix); mask[list(D.values())] = True
+    first_form = None
+    for lp_ in (n for n in walk_no_nested(vm.node) if isinstance(n, ast.For)):
+        it_ = lp_.iter
+        if isinstance(it_, ast.Call) and call_name(it_) == "enumerate" and len(it_.args) == 2 and isinstance(lp_.target, ast.Tuple) and \
+                len(lp_.target.elts) == 2 and all(isinstance(x, ast.Name) for x in lp_.target.elts):
+            src_ = _resolve1(vm.node, it_.args[0])
+            ixv, colv = lp_.target.elts[0].id, lp_.target.elts[1].id
+            sd = [x for x in ast.walk(lp_) if isinstance(x, ast.Call) and call_name(x) == "setdefault" and len(x.args) == 2 and
+                  isinstance(x.func.value, ast.Name)]
+            if len(sd) == 1 and len(lp_.body) == 1 and unparse(src_) == "cols[start:end]" and unparse(it_.args[1]) == "start":
+                D_ = sd[0].func.value.id
+                uses = [n for n in walk_no_nested(vm.node) if isinstance(n, ast.Assign) and isinstance(n.targets[0], ast.Subscript) and
+                        unparse(n.targets[0].value) == "mask" and unparse(n.targets[0].slice).replace(" ", "") in (f"list({D_}.values())", f"[*{D_}.values()]")]
+                first_form = (lp_, unparse(sd[0].args[0]) == colv and unparse(sd[0].args[1]) == ixv and bool(uses))
+    if first_form is not None:
+        insts.append(R.ok(rid, "no-jack", file, first_form[0].lineno, idiom="first position per distinct column of the window (dict.setdefault in window order)") if first_form[1] else
+                     R.viol(rid, "no-jack", file, first_form[0].lineno,
+                            "with jacks avoided exactly one note (the earliest) per distinct column of the window is selected",
+                            construct=unparse(first_form[0])[:160]))
+        return insts
     jk = [n for n in walk_no_nested(vm.node) if isinstance(n, ast.ListComp) and "index" in unparse(n)]
     ok_j = len(jk) == 1 and len(jk[0].generators) == 1 and isinstance(jk[0].generators[0].target, ast.Name) and not jk[0].generators[0].ifs and \
         unparse(jk[0].generators[0].iter) == "set(cols_)" and unparse(jk[0].elt) == f"cols_.index({jk[0].generators[0].target.id})"
